@@ -11,6 +11,7 @@ CONSTANTS
   SSizes = {1, 2}
   Filts = {"client", "server"}
   Ops = {"pub", "rem", "exp", "sexp", "clear", "refresh", "poscheck"}
+  MaxJumps = 0
   Pres = {2}
   N0s = {0}
   Contig = TRUE
